@@ -1,6 +1,8 @@
 """C16 regions labels are exactly the connected components of equal value."""
 import math
 
+import numpy as _np
+
 from sx import symnp, core as sc
 from .common import raster, coords_affine, cells, And, Or, Not, Implies, ite, isnan, same, vals, Skip
 
@@ -41,6 +43,9 @@ def jobs(tier, seed):
         out.append({'name': 'regions-4x6-three-labels-meet-%d%d' % (sym[0][0], sym[0][1]), 'shape': [4, 6], 'n': 8, 'nan': False, 'base': MEET, 'sym': sym, 'domain': [0, 1]})
     for n in (4, 8):
         out.append({'name': 'regions-2x2-n%d-int32' % n, 'shape': [2, 2], 'n': n, 'nan': False, 'dtype': 'int32'})
+    # memory layout must not matter (Fortran-ordered input; the U shape needs a merge in the second pass)
+    for n in (4, 8):
+        out.append({'name': 'regions-3x3-n%d-fortran-order' % n, 'shape': [3, 3], 'n': n, 'nan': False, 'domain': [0, 1], 'layout': 'F'})
     out.append({'name': 'regions-invalid-neighbourhood', 'shape': [2, 2], 'n': 6, 'nan': False})
     if tier != 'quick':
         for n in (4, 8):
@@ -70,6 +75,13 @@ def body(ctx, job):
     for v in data.flat_values():
         if sc.is_sym(v):
             ctx.assume(Or(isnan(v), *[v == k for k in job.get('domain', [-1, 0, 2])]))
+    if job.get('layout') == 'F':
+        idx = _np.arange(h * w).reshape(w, h).T
+        buf = [None] * (h * w)
+        for (y, x) in cells((h, w)):
+            buf[int(idx[y, x])] = data[y, x]
+        data = symnp.SymArray(buf, idx, data.dtype)
+        data._sx_layout = 'F'
     _run(ctx, job, data, h, w, n)
 
 
